@@ -327,6 +327,14 @@ func hookFrame(v2019 bool, id, serial uint16, frag bool, sum, no uint16, body []
 	return ref.Build(ref.Params{ID: id, V2019: v2019, VersionByt: 1, BCD: bcd, Serial: serial, Fragmented: frag, Sum: sum, No: no, Body: body})
 }
 
+// attrFrame builds a valid unfragmented frame whose property word also has some of the bits 10..12 (encryption) and 15
+// (reserved) set: attrBits is OR-ed into the high byte of the word (0x04 = bit 10, 0x08 = bit 11, 0x10 = bit 12, 0x80 = bit 15).
+func attrFrame(v2019 bool, bcd []byte, id, serial uint16, body []byte, attrBits byte) []byte {
+	p := ref.Payload(ref.Params{ID: id, V2019: v2019, VersionByt: 1, BCD: bcd, Serial: serial, Body: body})
+	p[2] |= attrBits & 0x9c
+	return ref.Escape(c02Fix(p))
+}
+
 func hookFrameV(v2019 bool, id, serial uint16, frag bool, sum, no uint16, body []byte) []byte {
 	return hookFrame(v2019, id, serial, frag, sum, no, body)
 }
